@@ -129,6 +129,7 @@ type Exec struct {
 	modelVars []string
 	entryAlloc *Term // allocation pointer at function entry
 	instSig    *types.Signature
+	returnOrds map[*ast.ReturnStmt]int
 	// byte-slice parameters at function entry (for projecting a model onto inputs)
 	modelSlices []modelSlice
 	curHookProps []string
@@ -484,13 +485,13 @@ func (ex *Exec) strLit(s string) *Term {
 // stringAxioms returns the facts about literals and string functions.
 func (ex *Exec) stringAxioms() []*Term {
 	var out []*Term
-	if _, ok := ex.D.byName["st.len"]; ok || len(ex.strLits) > 0 {
+	if ok := ex.D.has("st.len"); ok || len(ex.strLits) > 0 {
 		s := mk("s?", SStr)
 		out = append(out, forall([]*Term{s}, ge(ex.strLen(s), intLit(0)), []*Term{ex.strLen(s)}))
 		out = append(out, eq(ex.strLen(ex.strEmpty()), intLit(0)))
 		out = append(out, forall([]*Term{s}, implies(eq(ex.strLen(s), intLit(0)), eq(s, ex.strEmpty())), []*Term{ex.strLen(s)}))
 	}
-	if _, ok := ex.D.byName["st.cat"]; ok {
+	if ok := ex.D.has("st.cat"); ok {
 		a, b := mk("a?", SStr), mk("b?", SStr)
 		cat := ex.D.app("st.cat", SStr, a, b)
 		out = append(out, forall([]*Term{a, b}, eq(ex.strLen(cat), add(ex.strLen(a), ex.strLen(b))), []*Term{cat}))
@@ -538,7 +539,7 @@ func (ex *Exec) sCap(s *Term) *Term { return ex.D.app("s.cap", SInt, s) }
 func (ex *Exec) nilSlice() *Term { return ex.D.konst("s.nil", SSlice) }
 
 func (ex *Exec) sliceAxioms() []*Term {
-	if _, ok := ex.D.byName["s.nil"]; !ok {
+	if ok := ex.D.has("s.nil"); !ok {
 		return nil
 	}
 	n := ex.nilSlice()
@@ -654,7 +655,7 @@ func (ex *Exec) mem(st *State, elem types.Type) *Term {
 // an uninterpreted function with the definitional axiom ix(a,b) = a+b, so that
 // quantifier triggers over element accesses contain no arithmetic.
 func (ex *Exec) ix(off, i *Term) *Term {
-	if _, ok := ex.D.byName["ix"]; !ok {
+	if ok := ex.D.has("ix"); !ok {
 		ex.D.declare("ix", []string{SInt, SInt}, SInt)
 		a, b := mk("a?", SInt), mk("b?", SInt)
 		app := mk("ix", SInt, a, b)
